@@ -21,7 +21,11 @@ def main():
         for m in todo:
             subprocess.run(["git", "-C", wt, "checkout", "-q", "--", "."], check=True)
             subprocess.run(["git", "-C", wt, "reset", "-q", "--hard"], check=True)
-            if "revert" in m:
+            subprocess.run(["git", "-C", wt, "clean", "-fdq", "-e", "target", "-e", "Cargo.lock"], check=True)
+            if "patch" in m:
+                subprocess.run(["git", "-C", wt, "apply", os.path.join(VERIF, "selftest", m["patch"])], check=True)
+                src = None
+            elif "revert" in m:
                 subprocess.run(["git", "-C", wt, "revert", "--no-commit", m["revert"]], check=True, capture_output=True)
                 subprocess.run(["git", "-C", wt, "reset", "-q"], check=True)
                 src = None
